@@ -224,6 +224,44 @@ func runC19(p *Program, e *Engine, r *Result, tier string) {
 	// (4) shared rules
 	for _, rd := range ro.Readers {
 		c12PathStores(a, tf, rd, "C19.4")
+		// the entries rewritten after a directory rename are selected by the separator-bounded prefix (any depth below the
+		// renamed directory) or by equality with the renamed directory itself
+		_, pathF := tf.watchFields()
+		for _, v := range a.walk(rd).Visits {
+			st, ok := v.Instr.(*ssa.Store)
+			if !ok {
+				continue
+			}
+			fa, ok := st.Addr.(*ssa.FieldAddr)
+			if !ok || fieldName(fa.X.Type(), fa.Field) != pathF || a.Ro.StructOf[fieldOf(fa)] != tf.watchT {
+				continue
+			}
+			base, bctx := v.Ctx.resolve(fa.X)
+			if _, fresh := base.(*ssa.Alloc); fresh {
+				continue
+			}
+			ep := bctx.path(base) + "." + pathF
+			nPrefix := 0
+			okSel, bad := v.Cond.everyConj(func(c Conj) bool {
+				pre := c.has(func(l Lit) bool {
+					return l.A.Kind == AkPred && !l.Neg && l.A.Callee != nil && fullName(l.A.Callee) == "strings.HasPrefix" && l.A.Call != nil &&
+						l.A.Ctx.path(l.A.Call.Call.Args[0]) == ep && endsWithSep(l.A.Ctx, l.A.Call.Call.Args[1])
+				})
+				if pre {
+					nPrefix++
+					return true
+				}
+				return c.has(func(l Lit) bool { return l.A.Kind == AkCmp && !l.Neg && l.A.Op == "==" && (l.A.Subj == ep || l.A.K == ep) })
+			})
+			wit := "selected by path == old || HasPrefix(path, old + \"/\")"
+			if !okSel {
+				wit = "an entry is rewritten under " + stripIDs(bad.String())
+			} else if nPrefix == 0 {
+				okSel = false
+				wit = "no separator-bounded prefix alternative: descendants deeper than one level are not rewritten"
+			}
+			a.R.ob("C19.4", "rename:descendants-at-any-depth", "after a directory rename every entry below it, at any depth, is rewritten (selected by the separator-bounded prefix)", a.P.instrPos(st), okSel, wit)
+		}
 	}
 	c04RemoveExact(a, tf, ro.API["Remove"], "C19.4")
 }
